@@ -283,8 +283,12 @@ class Normaliser:
             for p2, tv in self.fork(value.test, env, pc):
                 self.emit(value.body if tv else value.orelse, env, p2, line)
             return
-        if isinstance(value, ast.Tuple) and any(isinstance(x, ast.IfExp) for x in value.elts):
-            raise Unsupported(f"{self.func.qualname}: IfExp inside a returned tuple")
+        inner = next((n for n in ast.walk(value) if isinstance(n, ast.IfExp)), None)
+        if inner is not None:
+            # a conditional expression nested in the returned value (e.g. inside the result tuple) forks too
+            for p2, tv in self.fork(inner.test, env, pc):
+                self.emit(_replace_node(value, inner, inner.body if tv else inner.orelse), env, p2, line)
+            return
         self.table.rows.append(Row(dict(pc), self.expr(value, env), line))
 
     def block(self, stmts, env, pc, top=False) -> List[Tuple[Dict[str, Expr], Dict]]:
@@ -333,6 +337,23 @@ class Normaliser:
         if isinstance(st, ast.Expr) and isinstance(st.value, ast.Constant):
             return [(env, pc)]
         raise Unsupported(f"{self.func.qualname}: statement {norm(st)[:60]} outside the GCNF subset")
+
+
+def _replace_node(root: ast.AST, target: ast.AST, repl: ast.AST) -> ast.AST:
+    """copy of root with the node `target` (by identity) replaced by `repl`; root is not modified"""
+    def rec(node):
+        if node is target:
+            return repl
+        if isinstance(node, ast.AST):
+            new = type(node)()
+            for k, v in vars(node).items():
+                setattr(new, k, rec(v))
+            return new
+        if isinstance(node, list):
+            return [rec(x) for x in node]
+        return node
+
+    return rec(root)
 
 
 def normalise(func: Func) -> Table:
